@@ -542,6 +542,7 @@ func c09FormatStrings(c *Ctx, rule string) {
 func checkC09Payload(c *Ctx) {
 	c09FormatStrings(c, "R-payload")
 	poolAliasRule(c, "R-frame-owned")
+	c09NoWriteDeadline(c, "R-frame-complete")
 	// (a) fmt.Fprintf(w, "...data: %s...", payload): payload must come from json.Marshal
 	// (b) functions that write a payload followed by "\n" to an io.Writer param (stdio line writer): payload from json.Marshal
 	for _, fn := range c.P.LibFns {
@@ -809,4 +810,34 @@ func streamWriteLocked(c *Ctx, rule string, serverOnly bool) int {
 		}
 	}
 	return n
+}
+
+// c09NoWriteDeadline: a frame is written completely or the stream is given up. A write deadline on a stream that
+// carries frames (SetWriteDeadline / SetDeadline on the pipe, file or connection) makes a write stop in the middle of a
+// frame when the peer is slow; the unterminated prefix stays in the stream and the next frame is appended to it.
+func c09NoWriteDeadline(c *Ctx, rule string) {
+	n := 0
+	for _, fn := range c.P.LibFns {
+		ir.EachCall(fn, func(call ssa.CallInstruction) {
+			cc := call.Common()
+			name := ""
+			if cc.IsInvoke() {
+				name = cc.Method.Name()
+			} else if sc := ir.StaticCallee(call); sc != nil {
+				name = sc.Name()
+			}
+			if name != "SetWriteDeadline" && name != "SetDeadline" {
+				return
+			}
+			if _, isDefer := call.(*ssa.Defer); isDefer {
+				return
+			}
+			n++
+			c.R.Violate(rule, "write deadline set in "+fname(fn), c.Pos(call.Pos()),
+				sprintf("%s puts a write deadline on a stream that carries frames: a write that times out leaves an unterminated part of its frame in the stream, and the next message is appended to it (two messages in one frame, then a frame with no message)", fname(fn)))
+		})
+	}
+	if n == 0 {
+		c.R.Hold(rule, "no write deadline on a frame-carrying stream", "", "a slow peer blocks the writer; it does not truncate a frame")
+	}
 }
